@@ -232,6 +232,16 @@ def run_load(name, fmt, api, data, consume=("exhaust", 0), knobs=None, budget=No
                         def on_frame(i):
                             lit_ = _SPY[-1] if _SPY else None
                             endlines.append(getattr(lit_, "lineno", None))
+                    elif knobs.get("interleave"):
+                        # between two frames the caller loads another (intact) file: the trajectory's frames, error
+                        # and line number must be what they are without that
+                        disk.put("_other/inner.xyz", b"2\ninner\nH 0.0 0.0 0.0\nH 0.0 0.0 0.7\n")
+
+                        def on_frame(i):
+                            try:
+                                iodata.load_one("_other/inner.xyz")
+                            except Exception as exc_:  # noqa: BLE001 - judged below
+                                rec.setdefault("inner_errors", []).append(f"{type(exc_).__name__}: {exc_}")
                     rec["finished"] = _consume(g, consume[0], consume[1], rec["frames"], on_frame)
                 finally:
                     g = None  # "drop": the last reference goes away here
@@ -247,7 +257,7 @@ def run_load(name, fmt, api, data, consume=("exhaust", 0), knobs=None, budget=No
     rec["warnings"] = [type(x.message).__name__ for x in wlist]
     rec["warning_msgs"] = [f"{type(x.message).__name__}:{str(x.message).rsplit(' (', 1)[0]}" for x in wlist]
     rec["handles_open"] = len(disk.open_handles())
-    hs = [h for h in disk.handles if isinstance(h, seams.SimTextR)]
+    hs = [h for h in disk.handles if isinstance(h, seams.SimTextR) and not str(h.path).startswith("_other/")]
     rec["nlines"] = sum(h.nlines for h in hs)
     rec["neof"] = sum(h.neof + h.nerr for h in hs)
     rec["nopen"] = len(hs)
@@ -256,6 +266,8 @@ def run_load(name, fmt, api, data, consume=("exhaust", 0), knobs=None, budget=No
     # how many lines the file really has (only "\n" ends a line of a text file), for readers that take the file in bulk
     rec["real_lines"] = data.count(b"\n") + (1 if data and not data.endswith(b"\n") else 0)
     lit = _SPY[-1] if _SPY else None
+    if knobs.get("interleave"):
+        lit = None  # (the most recent iterator may belong to the file loaded in between)
     rec["lit"] = None
     if lit is not None and hasattr(lit, "lineno") and hasattr(lit, "stack"):
         rec["lit"] = (lit.lineno, len(lit.stack))
@@ -436,7 +448,7 @@ def execute(trace):
     budget = budget_for(trace["source"], trace["base_name"], trace.get("base_fmt"), trace["api"], data0)
     rec = run_load(trace["name"], trace.get("fmt"), trace["api"], data, tuple(trace.get("consume", ["exhaust", 0])),
                    trace.get("knobs"), budget)
-    return judge(trace, rec)
+    return judge(trace, rec) + (judge_interleaved(trace, rec, data, budget) if trace.get("knobs") else [])
 
 
 # ------------------------------------------------------------------------------------------------
@@ -611,7 +623,8 @@ def gen_trace(rng, tier):
                        "encoding": rng.choice(["utf-8"] * 6 + ["ascii", "latin-1"]),
                        "warnings": "error" if rng.random() < 0.12 else "always",
                        "pathlib": rng.choice([False] * 8 + [True, "pathlike"]), "in_thread": rng.random() < 0.08,
-                       "fperr": "raise" if rng.random() < 0.1 else None}}
+                       "fperr": "raise" if rng.random() < 0.1 else None,
+                       "interleave": api == "load_many" and rng.random() < 0.25}}
     if fmt is not None and not selectable(name, api, fmt):
         trace["api"] = api  # kept: FileFormatError expected
     return trace
@@ -709,6 +722,7 @@ def run_task(task):
             rec = run_load(trace["name"], trace["fmt"], trace["api"], data, tuple(trace["consume"]), trace["knobs"], budget)
             n += 1
             vs = judge(trace, rec)
+            vs.extend(judge_interleaved(trace, rec, data, budget))
             viols.extend(vs)
             _record(stats, trace, rec, data, data0, vs)
             dig.append((common.short(data), type(rec["exc"]).__name__, str(rec["exc"])[:60], len(rec["frames"]), rec["steps"]))
@@ -725,6 +739,22 @@ def run_task(task):
 
 
 # ------------------------------------------------------------------------------------------------
+
+
+def judge_interleaved(trace, rec, data, budget):
+    """A load_many whose consumer loaded another file between two frames: same frames / error / line as without."""
+    if not trace["knobs"].get("interleave") or trace["api"] != "load_many" or tuple(trace["consume"])[0] != "exhaust":
+        return []
+    plain = run_load(trace["name"], trace["fmt"], trace["api"], data, tuple(trace["consume"]), {**trace["knobs"], "interleave": False}, budget)
+    out = []
+    a = ([canon.iodata_digest(d) for d in rec["frames"]], type(rec["exc"]).__name__, getattr(rec["exc"], "lineno", None))
+    b = ([canon.iodata_digest(d) for d in plain["frames"]], type(plain["exc"]).__name__, getattr(plain["exc"], "lineno", None))
+    if a != b:
+        out.append(_v("outcome_depends_on_interleaved_load", f"{len(a[0])} frames / {a[1]} at line {a[2]} when another file is loaded between the frames, "
+                      f"{len(b[0])} frames / {b[1]} at line {b[2]} otherwise", trace, "interleave"))
+    if rec.get("inner_errors"):
+        out.append(_v("outcome_depends_on_interleaved_load", f"the intact file loaded between two frames was rejected: {rec['inner_errors'][0][:120]}", trace, "inner"))
+    return out
 
 
 def shrink(trace, still_fails):
